@@ -16,7 +16,7 @@ fn redc2(t: u64, m: u64, ninv16: u64) -> u64 {
     if s >= m { s - m } else { s }
 }
 
-//@ prop=C08,C15,C11 tier=quick profile=k8 funcs="BoxedMontyMultiplier::new,mul,square,mul_assign,square_assign,almost_montgomery_mul,conditional_sub,add_mul_carry,add_mul_carry_and_shift" bound="u8 words, boxed 2 limbs: m=[S(2)|1, S(2)^sign] >= 3, x,y with limbs S(1), < m: fully reduced result = textbook REDC(x*y), R = 2^16" free_bits=15
+//@ prop=C08,C15,C11 tier=quick profile=k8 funcs="BoxedMontyMultiplier::new,mul,square,mul_assign,square_assign,almost_montgomery_mul,conditional_sub,add_mul_carry,add_mul_carry_and_shift" bound="u8 words, boxed 2 limbs: m=[S(2)|1, S(2)^sign] >= 3, x,y with limbs S(1), < m: fully reduced result = textbook REDC(x*y), R = 2^16" free_bits=15 core=C15
 #[kani::proof]
 #[kani::unwind(8)]
 fn c08_k8_boxed_multiplier_2() {
